@@ -103,6 +103,19 @@ def observe(ctx, spec, with_pool):
         j.rejection_sample(data, other, n_linear_samples=2, in_memory=True)
         j.rejection_sample(data, fn, n_linear_samples=1, n_batches=2)
         obs.append(("after unrelated marginal/posterior calls (same TheJoker)", None, np.asarray(j.marginal_ln_likelihood(data, lib, in_memory=True), float)))
+        # ... and after a call with OTHER data on the same sampler: the same merged observations divided between the surveys
+        # differently (the last epoch of the first survey handed to the second one), then the original data again
+        if isinstance(data, list) and len(data) >= 2 and len(data[0]) >= 2:
+            from thejoker.data import RVData
+
+            d0, d1 = data[0], data[1]
+            cat = lambda a, b: RVData(t=np.concatenate([a._t_bmjd, b._t_bmjd]), rv=np.concatenate([a.rv.value, b.rv.to_value(a.rv.unit)]) * a.rv.unit,
+                                      rv_err=np.concatenate([a.rv_err.to_value(a.rv.unit), b.rv_err.to_value(a.rv.unit)]) * a.rv.unit)
+            alt = [d0[:-1], cat(d0[-1:], d1)] + list(data[2:])
+            j2 = J()
+            j2.marginal_ln_likelihood(alt, lib, in_memory=True)
+            obs.append(("after a call with the same observations divided differently between the surveys (same TheJoker)", None,
+                        np.asarray(j2.marginal_ln_likelihood(data, lib, in_memory=True), float)))
         # the helper itself: repeated calls, posterior call in between, pickled copy
         helper = j._make_joker_helper(data)
         chunk, _ = lib.pack(units=helper.internal_units, names=helper.packed_order)
